@@ -112,7 +112,7 @@ type c28World struct {
 	wrong    ed25519.PrivateKey
 	op       int
 	obs      []*agentObs
-	captured []cmdFields // genuine commands issued by the operator, as seen on the wire
+	captured []cmdFields         // genuine commands issued by the operator, as seen on the wire
 	signed   map[string][64]byte // (origin, id, timestamp) -> the signature the key holder made for it
 	capKeys  map[string]bool
 	nextID   uint64
